@@ -19,7 +19,7 @@ from django_evolution.consts import UpgradeMethod
 from django_evolution.errors import EvolutionExecutionError
 from django_evolution.evolve.base import BaseEvolutionTask
 from django_evolution.models import Evolution
-from django_evolution.mutations import AddField, ChangeField
+from django_evolution.mutations import AddField, ChangeField, RenameModel
 from django_evolution.mutators import AppMutator
 from django_evolution.signals import (applied_evolution,
                                       applying_evolution,
@@ -1269,15 +1269,7 @@ class EvolveAppTask(BaseEvolutionTask):
             evolutions = get_evolution_sequence(app)
         else:
             orig_upgrade_method = app_sig.upgrade_method
-
-            # Copy only the models from the target signature that have
-            # been created.
-            for model in new_models:
-                target_model_sig = target_app_sig.get_model_sig(
-                    model._meta.object_name,
-                    required=True)
-
-                app_sig.add_model_sig(target_model_sig.clone())
+            pending_mutations = None
 
             if app_sig.upgrade_method != UpgradeMethod.MIGRATIONS:
                 # We're processing this as evolutions. Find out if we're
@@ -1307,6 +1299,39 @@ class EvolveAppTask(BaseEvolutionTask):
                         evolution_labels=evolutions,
                         database=database_name)
 
+                # A model that a pending RenameModel renames an existing
+                # model to is not new, even when its new table doesn't
+                # exist yet. The rename will take care of the table.
+                renamed_model_names = set(
+                    mutation.new_model_name
+                    for mutation in pending_mutations
+                    if (isinstance(mutation, RenameModel) and
+                        app_sig.get_model_sig(mutation.old_model_name))
+                )
+
+                if renamed_model_names:
+                    new_models = [
+                        model
+                        for model in new_models
+                        if model._meta.object_name not in renamed_model_names
+                    ]
+
+                    self.new_models = new_models
+                    self.new_model_names = [
+                        model._meta.object_name
+                        for model in new_models
+                    ]
+
+            # Copy only the models from the target signature that have
+            # been created.
+            for model in new_models:
+                target_model_sig = target_app_sig.get_model_sig(
+                    model._meta.object_name,
+                    required=True)
+
+                app_sig.add_model_sig(target_model_sig.clone())
+
+            if pending_mutations is not None:
                 self._pending_mutations = pending_mutations
 
                 mutations_info = self.generate_mutations_info(
